@@ -8,7 +8,7 @@ import itertools
 import re
 import sys
 
-from .bits import (BV, TOP, Aff, atom_key, b_and, b_not, b_or, bits_max, bits_min, bv_binop, bv_cast, bv_cmp, bv_not,
+from .bits import (BV, TOP, Aff, atom_key, bits_subset, b_and, b_not, b_or, bits_max, bits_min, bv_binop, bv_cast, bv_cmp, bv_not,
                    fmt_bit, fmt_bits, is_atom, lit, pred, subst_bit, bits_from_aff)
 from .values import (UNIT, Array, Closure, Enum, FnItem, Opaque, Ptr, Ref, Struct, fmt_loc, fmt_path, map_value)
 
@@ -850,6 +850,18 @@ class Interp:
                 lo, hi = max(lo, alo), min(hi, ahi)
         if lo > hi:
             return []
+        if st.facts and lo < hi and not bv.has_top():
+            # an endpoint that a recorded (in)equality fact rules out (x != u64::MAX before x + 1, x != 0 before x - 1)
+            from .bits import eq_bit
+            for _ in range(2):
+                e = eq_bit(bv.bits, tuple((hi >> i) & 1 for i in range(bv.w)))
+                if e not in (0, 1) and subst_bit(e, {}, st.facts) == 0 and lo < hi:
+                    hi -= 1
+                else:
+                    break
+            e = eq_bit(bv.bits, tuple((lo >> i) & 1 for i in range(bv.w)))
+            if e not in (0, 1) and subst_bit(e, {}, st.facts) == 0 and lo < hi:
+                lo += 1
         return [(lo, hi)]
 
     def atom_range(self, st, atom):
@@ -950,6 +962,13 @@ class Interp:
             # bit 0 when the coefficient allows (2^lo divides it), so that the whole-symbol identification below applies
             terms = {}
             for (sym, lo, hi), c in x.terms.items():
+                if hi - lo <= 64 and hi <= 64:
+                    # a slice all of whose bits this path has fixed is a constant
+                    full = self.reduce_bits(st, BV.sym(64, sym)).bits
+                    kn = [full[i] if full[i] in (0, 1) else st.env.get((sym, i)) for i in range(lo, hi)]
+                    if all(b in (0, 1) for b in kn):
+                        k0 += c * sum(b << i for i, b in enumerate(kn))
+                        continue
                 if lo > 0 and c % (1 << lo) == 0:
                     full = self.reduce_bits(st, BV.sym(64, sym)).bits
                     known = [full[i] if full[i] in (0, 1) else st.env.get((sym, i)) for i in range(0, lo)]
@@ -1035,6 +1054,9 @@ class Interp:
             hi = {'Add': amax + bmax, 'Sub': amax - bmin, 'Mul': amax * bmax}[b0]
             # relational tightening for a - b when b <= a is known
             if b0 == 'Sub' and self.known_le(st, b, a):
+                lo = max(lo, 0)
+            if b0 == 'Sub' and TOP not in a.bits and TOP not in b.bits and bits_subset(b.bits, a.bits):
+                # b = a & mask: b <= a bit for bit, the difference cannot borrow
                 lo = max(lo, 0)
             m = 1 << a.w
             if a.signed:
@@ -1717,8 +1739,13 @@ class Interp:
                         outs_rel = self.exec_block(fr, others[0], s_rel, visiting)
                         st.notes.append(('cfg(debug_assertions)', lit_, t['loc']))
                         outs_dbg = self.exec_block(fr, taken, st, visiting)
-                        seen = {repr(o.val) for o in outs_rel if o.kind == 'panic'}
-                        return outs_rel + [o for o in outs_dbg if o.kind == 'panic' and repr(o.val) not in seen]
+                        # Panics that only the debug-assertions profile adds are the failures of `debug_assert!`s. They are not turned into
+                        # outcomes: such an assertion states an invariant its author holds to be unreachable, the domains here cannot always
+                        # re-prove it (`(a | m) + 1 > a`), and reporting it would be an alarm on code whose behaviour in the property's terms
+                        # is that of the other profile. They are counted (stats['debug-only panics']) so that the evidence shows them.
+                        extra = [o for o in outs_dbg if o.kind == 'panic' and repr(o.val) not in {repr(x.val) for x in outs_rel if x.kind == 'panic'}]
+                        self.stats['debug-only panics'] = self.stats.get('debug-only panics', 0) + len(extra)
+                        return outs_rel
                 return self.switch(fr, t, st, visiting)
             if k == 'call':
                 return self.call_term(fr, t, st, visiting)
